@@ -54,6 +54,7 @@ type global struct {
 }
 
 type runtime struct {
+	interrupted  bool // the panic in flight was raised by the Interrupt function
 	global       global
 	globalObject *object
 	globalStash  *objectStash
@@ -115,14 +116,32 @@ func (rt *runtime) putValue(reference referencer, value Value) {
 	}
 }
 
+// interrupt calls a function received on Otto.Interrupt. If it panics, the panic
+// is marked as coming from the interrupt function, so that it unwinds the running
+// script through every script-level try/catch/finally (see tryCatchEvaluate).
+func (rt *runtime) interrupt(fn func()) {
+	defer func() {
+		if caught := recover(); caught != nil {
+			rt.interrupted = true
+			panic(caught)
+		}
+	}()
+	fn()
+}
+
 func (rt *runtime) tryCatchEvaluate(inner func() Value) (tryValue Value, isException bool) { //nolint:nonamedreturns
 	// resultValue = The value of the block (e.g. the last statement)
 	// throw = Something was thrown
 	// throwValue = The value of what was thrown
 	// other = Something that changes flow (return, break, continue) that is not a throw
 	// Otherwise, some sort of unknown panic happened, we'll just propagate it.
+	rt.interrupted = false
 	defer func() {
 		if caught := recover(); caught != nil {
+			if rt.interrupted {
+				// Raised by the interrupt function: not catchable by the script.
+				panic(caught)
+			}
 			if excep, ok := caught.(*exception); ok {
 				caught = excep.eject()
 			}
